@@ -51,14 +51,30 @@ pub struct Slot {
     /// milliseconds since process start at which the outermost guarded call began; 0 = idle
     start_ms: std::sync::atomic::AtomicU64,
     ctx: std::sync::Mutex<String>,
+    /// the thread was diagnosed as deadlocked by the baton scheduler (already reported): the watchdog ignores it
+    abandoned: std::sync::atomic::AtomicBool,
 }
+
+impl Slot {
+    pub fn abandon(&self) {
+        self.abandoned.store(true, std::sync::atomic::Ordering::SeqCst);
+    }
+}
+
+/// The calling thread's watchdog slot.
+pub fn my_slot() -> std::sync::Arc<Slot> {
+    MY_SLOT.with(|s| s.clone())
+}
+
+/// Deadlocks confirmed by the baton scheduler in this process (C16/C17 stop exploring after a few).
+pub static CONFIRMED_DEADLOCKS: std::sync::atomic::AtomicU64 = std::sync::atomic::AtomicU64::new(0);
 
 static SLOTS: std::sync::Mutex<Vec<std::sync::Arc<Slot>>> = std::sync::Mutex::new(Vec::new());
 static T0: std::sync::OnceLock<std::time::Instant> = std::sync::OnceLock::new();
 
 thread_local! {
     static MY_SLOT: std::sync::Arc<Slot> = {
-        let s = std::sync::Arc::new(Slot { start_ms: std::sync::atomic::AtomicU64::new(0), ctx: std::sync::Mutex::new(String::new()) });
+        let s = std::sync::Arc::new(Slot { start_ms: std::sync::atomic::AtomicU64::new(0), ctx: std::sync::Mutex::new(String::new()), abandoned: std::sync::atomic::AtomicBool::new(false) });
         SLOTS.lock().unwrap().push(s.clone());
         s
     };
@@ -83,7 +99,7 @@ pub fn start_watchdog(out_file: String, limit_s: u64, rss_limit_mb: u64) {
         let mut worst: Option<(u64, String)> = None;
         for s in &slots {
             let st = s.start_ms.load(std::sync::atomic::Ordering::SeqCst);
-            if st != 0 {
+            if st != 0 && !s.abandoned.load(std::sync::atomic::Ordering::SeqCst) {
                 let el = now.saturating_sub(st);
                 if worst.as_ref().map(|w| el > w.0).unwrap_or(true) {
                     worst = Some((el, s.ctx.lock().map(|c| c.clone()).unwrap_or_default()));
